@@ -19,6 +19,7 @@ import (
 	"seata.apache.org/seata-go/pkg/datasource/sql/undo"
 	undomysql "seata.apache.org/seata-go/pkg/datasource/sql/undo/mysql"
 	"seata.apache.org/seata-go/pkg/remoting/getty"
+	"seata.apache.org/seata-go/pkg/tm"
 	"seata.apache.org/seata-go/pkg/zzverif/vrt"
 )
 
@@ -120,7 +121,10 @@ func (c *c16Conn) QueryContext(ctx context.Context, q string, args []driver.Name
 	}
 	return c.rows(), nil
 }
-func (c *c16Conn) ResetSession(ctx context.Context) error { c.w.rec("ResetSession", "", nil); return nil }
+func (c *c16Conn) ResetSession(ctx context.Context) error {
+	c.w.rec("ResetSession", "", nil)
+	return nil
+}
 
 type c16Tx struct{ w *c16World }
 
@@ -221,6 +225,14 @@ func VerifC16Statement() {
 	args := []driver.NamedValue{{Ordinal: 1, Value: vrt.Int64("arg1")}, {Ordinal: 2, Value: vrt.String("arg2", 2)}}
 	ctx := context.Background() // no global transaction
 	via := vrt.Choice("via", 4)
+	// a statement may have been prepared earlier, while a global transaction was going on
+	// (a statement cache filled lazily), and be executed now, outside of any
+	prepCtx := ctx
+	if via >= 2 && vrt.Bool("prepared.inside.a.global.transaction") {
+		prepCtx = tm.InitSeataContext(context.Background())
+		tm.SetXID(prepCtx, "10.0.0.1:8091:99")
+		vrt.Reach("stmt/prepared-inside-gtx")
+	}
 	vrt.Reach("stmt/" + name)
 	var wantOps []string
 	var res driver.Result
@@ -243,7 +255,7 @@ func VerifC16Statement() {
 		case 2:
 			wantOps = []string{"Prepare", "StmtExec", "StmtClose"}
 			var st driver.Stmt
-			st, err = preparer.PrepareContext(ctx, q)
+			st, err = preparer.PrepareContext(prepCtx, q)
 			if err == nil {
 				res, err = st.(driver.StmtExecContext).ExecContext(ctx, args)
 				st.Close()
@@ -253,7 +265,7 @@ func VerifC16Statement() {
 		default:
 			wantOps = []string{"Prepare", "StmtQuery", "StmtClose"}
 			var st driver.Stmt
-			st, err = preparer.PrepareContext(ctx, q)
+			st, err = preparer.PrepareContext(prepCtx, q)
 			if err == nil {
 				rows, err = st.(driver.StmtQueryContext).QueryContext(ctx, args)
 				st.Close()
